@@ -25,13 +25,14 @@ THEOREMS = {
     "apply": "C16_apply_eq_eval",
     "stats": "C16_statistics, C16_statistics_real",
     "sampled": "C16_statistics_sampled",
-    "error": "C16_error_kind, C16_linear_iff_ok",
+    "error": "C16_linear_iff_ok",                            # rejected-or-built (the KIND of exception is not compared: final pass, X-1)
     "ctor": "C16_constructor_sum, C16_constructor_prod",
     "ctor_value": "C16_constructor_value",
 }
-# operands that are real-number-like / array-like but NOT instances of float or int: rejected (TypeError) in EITHER operand position.
-# On the LEFT this relies on ObservableBase.__array_ufunc__ = None (proposed/F-C16-numpy-left-operand.md): without it numpy absorbs the
-# observable (`np.array([1., 2.]) * obs` -> object array of composites, `np.int64(3) * obs` accepted) - reported with this signature
+# operands that are real-number-like / array-like but NOT instances of float or int: rejected in EITHER operand position.
+# On the LEFT this relies on ObservableBase.__array_ufunc__ = None (fix F16, APPLIED in /repo ac95f92; proposed/F-C16-numpy-left-operand.md
+# is the text of that fix): without it numpy absorbs the observable (`np.array([1., 2.]) * obs` -> object array of composites,
+# `np.int64(3) * obs` accepted) - the pre-fix behaviour is reported with this signature (seeded/F16_revert)
 NUMPY_TAGS = ("npint64", "npint32", "npfloat32", "ndarray", "ndarray0", "ndarray_int")
 SIG_NUMPY = "numpy-operand/not-rejected"
 RULE = ("case = (leaf observables, batch of samples [+ state], expression tree); trees are generated top-down to depth <= 6 "
@@ -40,7 +41,9 @@ RULE = ("case = (leaf observables, batch of samples [+ state], expression tree);
         "(malformed stream); scalars include 0 and negatives and stand on either side; in a quarter of the valid cases and in the "
         "'shared' stream textually identical sub-expressions are ONE Python object used several times (a = 2*X; a - a). mock tier: integer-valued mock "
         "leaves, integer-valued scalars, model run over Int, exact comparison; numpy scalars that are not float/int instances, numpy "
-        "arrays, tensors, lists, Fractions as operands in EITHER position (fixed + fault-injected); empty batches; the constructors "
+        "arrays, tensors, lists, Fractions as operands in EITHER position (fixed + fault-injected; rejected on the left since fix F16, applied in "
+        "/repo ac95f92); malformed expressions are judged as REJECTED-or-built only (a boolean; the exception class and which offending operand "
+        "is reported are counters); empty batches (apply compared, statistics of nothing unconstrained: counted); the constructors "
         "SumObservable / ProdObservable called directly on every pair of operand classes; real tier: SigmaX/Y/Z, "
         "NeighbourInteraction, SWAP on random Positive/Complex/Density states, model run over Float; the sample batch is float64, float32 or "
         "int64 (contiguous / strided / transposed) and handed to the composite and to its parts alike: parts then return float32 (SigmaZ, "
@@ -51,7 +54,8 @@ RULE = ("case = (leaf observables, batch of samples [+ state], expression tree);
         "(leaves, expression). history cases: one composite object built from a valid expression and used along a sequence (sample "
         "tensor overwritten in place, state re-parametrised in place, other batch length, other chain lengths, "
         "statistics_from_samples, statistics() for (num_samples, num_chains) incl. non-divisible / 0 / 1 / > num_samples with fresh or "
-        "user chains (float64/float32, overwrite on/off) and nn_state.sample wrapped on the instance, apply again). "
+        "user chains (float64/float32, overwrite on/off) and nn_state.sample wrapped on the instance, composite.sample(k, num_samples | "
+        "initial_state) compared with the expression on exactly the drawn batch, apply again). "
         "ARGUMENT FORMS (stream `af` of every generated leaf / state / statistics() call): num_samples, num_chains (no 0-d tensor: it would turn the "
         "running statistics into float32 tensors; no numpy.uint8: ceiling-division idioms negate it), burn_in, steps, the distance c of NeighbourInteraction (no numpy.uint8: `-c` wraps) and the state's "
         "sizes as Python int / numpy.int64 / int32 / intp / uint8 / 0-d numpy array / 0-d torch tensor; absolute, periodic_bcs, overwrite, gpu as bool / "
@@ -574,19 +578,25 @@ def one_case(ctx, case):
     sig = f"{mode}/{case['stream']}"
     if case.get("share"):
         ctx.count("shared_subexpression_objects")
-    # oracle: error kind / success as the independent classification says
-    np_unrejected = impl_err is None and exp_err == "TypeError" and numpy_bad(expr)
+    # oracle: REJECTED (building raised any exception) or BUILT, as the independent classification says.  The property says "rejected when
+    # built" and nothing about the class of the exception or about WHICH offending operand is reported when there are several: the kind
+    # (TypeError / ValueError as the present code and the model have it) is an informational counter only, never a mismatch
+    impl_rej, exp_rej = impl_err is not None, exp_err is not None
+    np_unrejected = not impl_rej and exp_err == "TypeError" and numpy_bad(expr)
     if numpy_bad(expr):
         ctx.count("numpy_nonfloat_operand")
-    ctx.oracle("build outcome == linearity classification" if not np_unrejected else
-               "a numpy scalar / array operand that is neither float nor int is rejected (TypeError) when the expression is built", impl_err == exp_err, case,
-               detail={"impl": impl_err, "expected": exp_err, "built": None if obj is None else type(obj).__name__ + ":" + repr(obj)[:120]},
+    if impl_rej and exp_rej:
+        ctx.count("rejected:exception_kind_as_classified" if impl_err == exp_err else f"rejected:exception_kind_differs:{impl_err}_for_{exp_err}")
+    ctx.oracle("rejected when built <=> not linear (a non-numeric operand or observable * observable)" if not np_unrejected else
+               "a numpy scalar / array operand that is neither float nor int is rejected when the expression is built", impl_rej == exp_rej, case,
+               detail={"impl_rejected": impl_rej, "impl_raised": impl_err, "expected_rejected": exp_rej,
+                       "built": None if obj is None else type(obj).__name__ + ":" + repr(obj)[:120]},
                sig=SIG_NUMPY if np_unrejected else f"{sig}/build-outcome", theorem=THEOREMS["error"])
-    if impl_err is None and exp_err is None:
+    if not impl_rej and not exp_rej:
         ctx.oracle("result is an observable iff the expression mentions one", isinstance(obj, ObservableBase) == (cls == "obs"), case,
                    detail={"type": type(obj).__name__, "class": cls}, sig=f"{sig}/result-kind", theorem="C16_result_is_observable")
     impl_apply = impl_stats = impl_stats_err = None
-    if impl_err != exp_err:
+    if impl_rej != exp_rej:
         return  # already a violation; nothing sensible to evaluate further
     if leaf_err is not None or any(d not in ("f64", "f32") for d in leafdt):
         return  # the parts have no (floating-point) values on this batch: the value of the composite is not constrained
@@ -602,10 +612,10 @@ def one_case(ctx, case):
             t2, back2 = make_batch(case["samples"], case["n"], lay, dt)
             try:
                 impl_stats = obj.statistics_from_samples(st, t2)
-            except ZeroDivisionError:
+            except Exception as e:  # noqa: BLE001 - statistics of NOTHING (B = 0) are not constrained: any exception (or any returned value) is as good
                 if B != 0:
                     raise
-                impl_stats_err = "ZeroDivisionError"
+                impl_stats_err = type(e).__name__
             ctx.oracle("apply / statistics_from_samples leave the batch (and the rest of its buffer) unchanged",
                        bool(torch.equal(t1, samples)) and bool(torch.equal(t2, samples)) and outside_untouched(back1, lay)
                        and outside_untouched(back2, lay), case, sig=f"{sig}/no-mutation")
@@ -614,14 +624,11 @@ def one_case(ctx, case):
                        detail={"raised": type(e).__name__, "msg": str(e)[:200]}, sig=f"{sig}/apply-raised", theorem=THEOREMS["apply"])
             return
         if B == 0:
-            # statistics of NOTHING are not constrained by the property: the library raises ZeroDivisionError (modelled); undefined (nan)
-            # statistics with num_samples == 0 would be as good
-            ctx.oracle("empty batch: apply returns no value; statistics_from_samples raises ZeroDivisionError (or reports undefined statistics)",
-                       impl_apply.shape == (0,) and (impl_stats_err is not None or (impl_stats["num_samples"] == 0 and all(
-                           math.isnan(float(impl_stats[k])) for k in ("mean", "variance", "std_error")))), case,
-                       detail={"raised": impl_stats_err, "apply_shape": list(impl_apply.shape)}, sig=f"{sig}/empty-batch", theorem=THEOREMS["stats"])
-            if impl_stats_err is None:
-                return
+            # statistics of NOTHING are not constrained by the property: the library raises ZeroDivisionError (as the model does); any other
+            # exception, undefined (nan) statistics or anything else returned is as good - counted, never compared (audit 2, C16-3)
+            ctx.count("empty_batch"); ctx.count(f"empty_batch:statistics_from_samples:{impl_stats_err or 'returned'}")
+            ctx.oracle("empty batch: apply returns no value", impl_apply.size == 0, case,
+                       detail={"apply_shape": list(impl_apply.shape)}, sig=f"{sig}/empty-batch", theorem=THEOREMS["apply"])
         # oracle: apply == the arithmetic expression on the leaves' values
         if carrier == "int":
             ivals = [[int(v) for v in lv] for lv in leafvals]
@@ -640,9 +647,7 @@ def one_case(ctx, case):
                            "max_abs_diff": float(np.max(np.abs(impl_apply - want_f))) if impl_apply.shape == want_f.shape and B else None,
                            "allowed": (float(np.max(bnd)) if dtype_regime and B else None)},
                    sig=f"{sig}/apply-oracle" + ("/mixed-dtypes" if dtype_regime else ""), theorem=THEOREMS["apply"])
-        # oracle: statistics are those of the combined per-sample value
-        if B == 0:
-            ctx.count("empty_batch")
+        # oracle: statistics are those of the combined per-sample value (B >= 1; see above for B = 0)
         m = float(np.mean(want_f)) if B else float("nan")
         v = float(np.var(want_f, ddof=1)) if B > 1 else float("nan")
         se = math.sqrt(v / B) if B > 1 and v >= 0 else float("nan")
@@ -656,9 +661,10 @@ def one_case(ctx, case):
         okS = B == 0 or (impl_stats["num_samples"] == B and abs(impl_stats["mean"] - m) <= tm
                and ((math.isnan(v) and math.isnan(impl_stats["variance"]) and math.isnan(impl_stats["std_error"])) or
                     (abs(impl_stats["variance"] - v) <= tv and abs(float(impl_stats["std_error"]) - se) <= tse)))
-        ctx.oracle("statistics == statistics of expression(leaf values)", bool(okS), case,
-                   detail={"impl": None if impl_stats is None else {k: float(x) for k, x in impl_stats.items()}, "expected": [m, v, se, B]},
-                   sig=f"{sig}/stats-oracle", theorem=THEOREMS["stats"])
+        if B:
+            ctx.oracle("statistics == statistics of expression(leaf values)", bool(okS), case,
+                       detail={"impl": None if impl_stats is None else {k: float(x) for k, x in impl_stats.items()}, "expected": [m, v, se, B]},
+                       sig=f"{sig}/stats-oracle", theorem=THEOREMS["stats"])
 
     # ---- model
     if ctx.driver is None:
@@ -669,8 +675,12 @@ def one_case(ctx, case):
         vals = [bits(lv) for lv in leafvals]
     mod = ctx.driver.call("c16.build", carrier=carrier, expr=to_driver(expr, carrier), vals=vals, batch=B)
     mod_err = mod.get("error")
-    ctx.point("error kind", "property", impl_err, mod_err, case, exact=True, theorem=THEOREMS["error"], sig=f"{sig}/error-kind")
-    if mod_err is not None or impl_err is not None:
+    # the model's error KIND (`firstError`: which offending node is met first, TypeError / ValueError) is reduced to rejected-or-built
+    # before it is compared; whether the kinds agree is an informational counter
+    ctx.point("rejected when built", "property", impl_rej, mod_err is not None, case, exact=True, theorem=THEOREMS["error"], sig=f"{sig}/rejected")
+    if impl_rej and mod_err is not None:
+        ctx.count("rejected:exception_kind_as_modelled" if impl_err == mod_err else f"rejected:exception_kind_not_as_modelled:{impl_err}_for_{mod_err}")
+    if mod_err is not None or impl_rej:
         return
     if mod["kind"] == "scalar":
         # observable-free expression: plain Python arithmetic on both sides
@@ -702,9 +712,12 @@ def one_case(ctx, case):
                   sig=f"{sig}/apply" + ("/mixed-dtypes" if dtype_regime else ""), **ptol)
         ctx.point("model apply == model eval", "aux", unbits(mod["eval"]), unbits(mod["apply"]), case, scale=sc, sig=f"{sig}/apply-eval")
         modf = mod
+    if B == 0:
+        return   # statistics of an empty batch: not constrained, not compared (the model's fromSamples reports ZeroDivisionError there)
     ms = modf["stats"]
-    if "error" in ms or impl_stats_err is not None:
-        ctx.point("statistics_from_samples: error kind", "property", impl_stats_err, ms.get("error"), case, exact=True, sig=f"{sig}/stats",
+    if "error" in ms:
+        # B >= 1 and the implementation returned statistics (an exception would have been reported above): the MODEL has none
+        ctx.point("statistics_from_samples: model has statistics", "property", "ok", ms.get("error"), case, exact=True, sig=f"{sig}/stats",
                   theorem=THEOREMS["stats"])
         return
     if dtype_regime:
@@ -725,7 +738,8 @@ def one_case(ctx, case):
 # ---------------------------------------------------------------- the constructors called directly
 def ctor_case(ctx, case):
     """`SumObservable(a, b)` / `ProdObservable(a, b)` called directly on operands obtained from the expressions `a`, `b` (observables, composites,
-    scalars of every kind, non-numeric values): error kind, stored structure, apply vs `a + b` / `a * b` on the leaves' values.
+    scalars of every kind, non-numeric values): rejected or built (the exception class is counted, not compared), apply vs `a + b` / `a * b` on
+    the leaves' values.
     Two plain numbers are ACCEPTED by SumObservable (no observable inside: outside the property; apply returns a Python float)."""
     which, ea, eb = case["ctor"], case["a"], case["b"]
     mode = case["mode"]
@@ -765,9 +779,13 @@ def ctor_case(ctx, case):
     except Exception as e:  # noqa: BLE001
         impl_err = type(e).__name__
     sig = f"ctor/{which}"
-    ctx.oracle("constructor: TypeError for a non-numeric operand, ValueError unless exactly one Prod operand is an observable, else built",
-               impl_err == exp_err, case, detail={"impl": impl_err, "expected": exp_err}, sig=f"{sig}/outcome", theorem=THEOREMS["ctor"])
-    if impl_err != exp_err:
+    impl_rej, exp_rej = impl_err is not None, exp_err is not None
+    if impl_rej and exp_rej:   # the exception class: informational
+        ctx.count("ctor_rejected:exception_kind_as_classified" if impl_err == exp_err else f"ctor_rejected:exception_kind_differs:{impl_err}_for_{exp_err}")
+    ctx.oracle("constructor: rejected for a non-numeric operand and for a product of two observables, else built",
+               impl_rej == exp_rej, case, detail={"impl_rejected": impl_rej, "impl_raised": impl_err, "expected_rejected": exp_rej},
+               sig=f"{sig}/outcome", theorem=THEOREMS["ctor"])
+    if impl_rej != exp_rej:
         return
     ctx.count(f"ctor_batch_dtype={dt}")
     try:
@@ -800,8 +818,8 @@ def ctor_case(ctx, case):
     if "operand_error" in m:
         ctx.point("constructor operands", "aux", None, m["operand_error"], case, exact=True, sig=f"{sig}/operands")
         return
-    ctx.point("constructor: error kind", "property", impl_err, m.get("error"), case, exact=True, theorem=THEOREMS["ctor"], sig=f"{sig}/error-kind")
-    if impl_err is not None or "error" in m:
+    ctx.point("constructor: rejected", "property", impl_rej, "error" in m, case, exact=True, theorem=THEOREMS["ctor"], sig=f"{sig}/rejected")
+    if impl_rej or "error" in m:
         return
     ctx.count("ctor_structure_as_modelled" if describe(obj, leaves, carrier) == canon_tree(m["tree"], carrier) else "ctor_structure_differs_from_model")
     if carrier == "int":
@@ -984,6 +1002,12 @@ def gen_history(rng, mode, depth):
                       "user": user, "rows": None if user is None else mk(n, rng.randrange(1, 4)), "overwrite": rng.random() < 0.5,
                       "af": af.new_seed(rng)})
     c["stats"] = stats
+    # composite.sample(nn_state, k, num_samples | initial_state) (audit 2, C16-2): fresh chains or the caller's chains
+    c["sample_calls"] = []
+    for _ in range(2):
+        own = rng.random() < 0.35
+        c["sample_calls"].append({"k": rng.randrange(0, 4), "m": rng.randrange(1, 6), "seed": rng.randrange(1 << 30),
+                                  "rows": mk(n, rng.randrange(1, 4)) if own else None, "overwrite": rng.random() < 0.5})
     return c
 
 
@@ -1180,6 +1204,35 @@ def history_case(ctx, case):
         check_stats("statistics", r, chunks, sub, T=len(calls), c=c_exp, ns=ns,
                     model_args=dict(num_samples=ns, num_chains=nc, burn_in=q["burn_in"], steps=q["steps"], overwrite=q["overwrite"], system=False,
                                     clone_id=1, user_id=0, init_rows=None if user is None else len(q["rows"]), ret_ids=[cl["ret"] for cl in calls]))
+    # ---- composite.sample (ObservableBase.sample: the composite evaluated on what nn_state.sample draws).  nn_state.sample is wrapped on the
+    # instance, the batch it returned is captured; expected = the expression over FRESH leaves on exactly that batch.  (Should a rewrite
+    # obtain its samples without calling nn_state.sample, the same draw is repeated under the same torch seed instead.)
+    for si, q in enumerate(case.get("sample_calls", [])):
+        sub = {**case, "step": f"sample #{si}"}
+        user = None if q["rows"] is None else torch.tensor(q["rows"], dtype=torch.double).reshape(len(q["rows"]), n)
+        kw = {"num_samples": q["m"]} if user is None else {"overwrite": q["overwrite"]}
+        torch.manual_seed(q["seed"])
+        r, err, calls = record_run(st, user, lambda u: obj.sample(st, k=q["k"], initial_state=u, **kw) if si % 2 else
+                                   obj.sample(st, q["k"], initial_state=u, **kw))
+        ctx.count("history:composite_sample_calls"); ctx.count("history:composite_sample:" + ("fresh chains" if user is None else "user chains"))
+        if err is not None or not isinstance(r, torch.Tensor):
+            ctx.oracle("history: sample() of a built composite returns its per-sample values", False, sub,
+                       detail={"raised": err, "returned": repr(r)[:200]}, sig=f"{sig}/sample-raised", theorem=THEOREMS["apply"])
+            continue
+        if calls:
+            drawn = calls[-1]["ret_copy"]
+        else:
+            ctx.count("history:composite_sample:nn_state.sample_not_called")
+            torch.manual_seed(q["seed"])
+            drawn = st.sample(k=q["k"], initial_state=None if user is None else torch.tensor(q["rows"], dtype=torch.double).reshape(len(q["rows"]), n), **kw).clone()
+        got = r.detach().numpy().astype(np.float64)
+        want, sc = expected_values(ctx, expr, specs, cur, drawn.to(torch.int64).tolist())
+        if ctx.driver is not None:
+            ctx.point(f"history[{sub['step']}]: composite.sample", "property", got, want, sub, scale=sc, theorem=THEOREMS["apply"], sig=f"{sig}/sample")
+        else:
+            ctx.oracle(f"history[{sub['step']}]: composite.sample == expression(leaf values on the drawn samples)",
+                       got.shape == want.shape and bool(np.all(np.abs(got - want) <= 1e-9 * sc)), sub,
+                       detail={"impl": got.tolist(), "expected": want.tolist()}, sig=f"{sig}/sample-oracle", theorem=THEOREMS["apply"])
     check_apply("after statistics()", st, cur, t, case["samples"])
 
 
